@@ -14,17 +14,17 @@ SeqToSet(s) == {s[i] : i \in 1..Len(s)}
 Empty == [x \in {} |-> 0]
 Dev(id) == id \in kf
 
-Init == TLCSet(1, 0) /\ l = 1 /\ live = Empty /\ loading = {} /\ pend = Empty /\ kf = {} /\ devs = {}
+Init == TLCSet(1, 0) /\ l = 1 /\ live = Empty /\ loading = {} /\ pend = Empty /\ stale = {} /\ landing = Empty /\ kf = {} /\ devs = {}
 
-New == Is("new") /\ live' = Empty /\ loading' = {} /\ pend' = Empty /\ kf' = SeqToSet(R.kf) /\ devs' = {} /\ Next1
+New == Is("new") /\ live' = Empty /\ loading' = {} /\ pend' = Empty /\ stale' = {} /\ landing' = Empty /\ kf' = SeqToSet(R.kf) /\ devs' = {} /\ Next1
 
 \* fetch_with(key) is called: it may return the resident value, or any value a load of
 \* this key delivers while the call is in flight
 Call ==
   /\ Is("call") /\ R.o \notin DOMAIN pend
   /\ pend' = Put(pend, R.o, [op |-> R.op, key |-> R.key,
-                             cand |-> IF R.op = "fetch" /\ Live(R.key) # 0 THEN {Live(R.key)} ELSE {}])
-  /\ UNCHANGED <<live, loading, kf, devs>> /\ Next1
+                             cand |-> IF R.op = "fetch" THEN CandNow(R.key) ELSE {}, landed |-> FALSE])
+  /\ UNCHANGED <<live, loading, stale, landing, kf, devs>> /\ Next1
 
 \* the loader closure starts for key: exactly once per miss (C15 SingleFlight)
 LoadStart ==
@@ -36,39 +36,60 @@ LoadStart ==
         /\ \E o \in DOMAIN pend : pend[o].op = "fetch" /\ pend[o].key = R.key
         /\ devs' = devs \cup {"F20"}
   /\ loading' = loading \cup {R.key}
-  /\ UNCHANGED <<live, pend, kf>> /\ Next1
+  /\ UNCHANGED <<live, pend, stale, landing, kf>> /\ Next1
 
-\* the loader closure returns value v for key: it becomes the resident value and a
-\* candidate result of every fetch of that key in flight
+\* the loader closure returns value v for key: it is a candidate result of every fetch of
+\* that key in flight; the loader task makes it resident next (Land, not recorded)
 LoadDone ==
-  /\ Is("ldone") /\ R.key \in loading
-  /\ loading' = loading \ {R.key}
-  /\ live' = Put(live, R.key, R.v)
+  /\ Is("ldone") /\ R.key \in loading /\ R.key \notin DOMAIN landing
+  /\ landing' = Put(landing, R.key, R.v)
+  /\ UNCHANGED <<live, loading, stale>>
   /\ pend' = [o \in DOMAIN pend |->
                 IF pend[o].op = "fetch" /\ pend[o].key = R.key THEN [pend[o] EXCEPT !.cand = @ \cup {R.v}] ELSE pend[o]]
   /\ UNCHANGED <<kf, devs>> /\ Next1
 
+\* silent: the loader task inserts the value it loaded (fresh) and the load is over; an
+\* invalidation of the key in flight may have been ordered before or after the insert
+Land ==
+  /\ l <= N /\ \E k \in DOMAIN landing :
+       /\ LandEffect(k)
+       /\ pend' = [o \in DOMAIN pend |->
+                IF pend[o].op = "invalidate" /\ pend[o].key = k THEN [pend[o] EXCEPT !.landed = TRUE] ELSE pend[o]]
+  /\ UNCHANGED <<l, kf, devs>>
+
 Ret ==
   /\ Is("ret") /\ R.o \in DOMAIN pend
-  /\ IF pend[R.o].op = "fetch"
-       THEN R.v \in pend[R.o].cand                \* every caller returns a loaded value of its key
-       ELSE TRUE
-  /\ live' = IF pend[R.o].op = "invalidate" THEN Put(live, pend[R.o].key, 0) ELSE live
+  /\ LET k == pend[R.o].key IN
+     /\ IF pend[R.o].op = "fetch"
+          \* every caller returns a loaded value of its key, and a value a load delivered is
+          \* resident by the time a caller returns it
+          THEN R.v \in pend[R.o].cand /\ ~(k \in DOMAIN landing /\ landing[k] = R.v)
+          ELSE TRUE
+     /\ IF pend[R.o].op = "invalidate"
+          THEN \/ live' = Put(live, k, 0) /\ stale' = stale \ {k}
+               \/ pend[R.o].landed /\ UNCHANGED <<live, stale>>
+          ELSE UNCHANGED <<live, stale>>
   /\ pend' = Drop1(pend, R.o)
-  /\ UNCHANGED <<loading, kf, devs>> /\ Next1
+  /\ UNCHANGED <<loading, landing, kf, devs>> /\ Next1
+
+\* the clock passes the TTL of every resident value (inside the stale-while-revalidate window)
+Adv ==
+  /\ Is("adv")
+  /\ stale' = {k \in DOMAIN live : live[k] # 0}
+  /\ UNCHANGED <<live, loading, pend, landing, kf, devs>> /\ Next1
 
 \* nothing can run: a blocked fetch must be waiting for a load that is still running
 Quiesce ==
-  /\ Is("quiesce")
+  /\ Is("quiesce") /\ DOMAIN landing = {}
   /\ \A o \in SeqToSet(R.blocked) : o \in DOMAIN pend /\ pend[o].op = "fetch" /\ FetchHasReasonToWait(pend[o].key)
   /\ UNCHANGED <<loaderVars, kf, devs>> /\ Next1
 
 Hung == (Is("hung") \/ Is("inconclusive")) /\ UNCHANGED <<loaderVars, kf, devs>> /\ Next1
-End == /\ Is("end") /\ DOMAIN pend = {} /\ loading = {}
+End == /\ Is("end") /\ DOMAIN pend = {} /\ loading = {} /\ DOMAIN landing = {}
        /\ \A d \in devs : PrintT(<<"DEV", d>>)
        /\ UNCHANGED <<loaderVars, kf, devs>> /\ Next1
 
-Next == New \/ Call \/ LoadStart \/ LoadDone \/ Ret \/ Quiesce \/ Hung \/ End
+Next == Land \/ Adv \/ New \/ Call \/ LoadStart \/ LoadDone \/ Ret \/ Quiesce \/ Hung \/ End
 Spec == Init /\ [][Next]_vars
 Accepted == IF TLCGet(1) = N + 1 THEN TRUE ELSE PrintT(<<"REJECT", TLCGet(1), ToJson(Rec[TLCGet(1)])>>) /\ FALSE
 =========================================================================
